@@ -15,11 +15,13 @@ DIRECTIVES = ['.org', '.memzone', '.align']
 DATATYPES = ['.fill', '.zero', '.zerountil', '.byte', '.2byte', '.4byte', '.8byte', '.cstr', '.asciiz']
 PREPROC = ['include', 'require', 'create_memzone', 'define', 'if', 'elif', 'else', 'endif', 'ifdef', 'ifndef', 'mute', 'unmute', 'emit']
 MN_POOL = ['ld', 'lda', 'ld.w', 'ld.b', 'st', 'sta', 'mov', 'mov16', 'a', 'x', 'jmp', 'j', 'add.c', 'adc', 'push2', 'p', 'inc', 'in',
-           'sub_w', 'br.eq', 'br', 'q7', '_brk', 'ld_', '_t_', 'push.b', 'push.r']
+           'sub_w', 'br.eq', 'br', 'q7', '_brk', 'ld_', '_t_', 'push.b', 'push.r',
+           # mnemonics that contain the spelling of a keyword of the constant-definition syntax
+           'bequ', 'sequ2', 'equ8']
 REG_POOL = ['a', 'b', 'x', 'sp', 'hl', 'ix', 'r0', 'r1', 'r10', 'mar', 'acc', 'sp_', '_fp', 'b0', 'b1', 'b10', 'ah', 'bh', 'c0h',
             # accepted register names that are assembler keywords in another letter case
             'ZERO', 'Fill', 'ORG', 'Byte0']
-MACRO_POOL = ['push2x', 'mov2', 'ld2', 'm.dot', 'jsr2', 'st', '_push2', 'call_', 'push', 'add', 'mov.w', 'ld.x']
+MACRO_POOL = ['push2x', 'mov2', 'ld2', 'm.dot', 'jsr2', 'st', '_push2', 'call_', 'push', 'add', 'mov.w', 'ld.x', 'jequ']
 
 
 # free text of the definition that ends up inside generated JSON / XML / YAML files
@@ -351,9 +353,10 @@ class C20(core.Check):
             else:
                 for cls, words, want in (('instruction', m['mns'], 'variable.function.instruction'), ('macro', m['macros'], 'variable.function.macro')):
                     for w in words:
-                        for form in (w, w.upper()):
+                        for form, ind, rest in ((w, '', ' 5'), (w.upper(), '', ' 5'), (w, '    ', ' 5'), (w.upper(), '\t', ' 5'),
+                                                (w, '  ', ' EQUAL_X'), (w, '  ', ' equ_k, 1')):
                             self.words += 1
-                            line = form + ' 5'
+                            line = ind + form + rest
                             best = None
                             for k_, (sc, rx) in enumerate(comp):
                                 mm = rx.search(line)
@@ -362,10 +365,10 @@ class C20(core.Check):
                                 key = (mm.start(), k_)
                                 if best is None or key < best[0]:
                                     best = (key, sc, mm.start(), mm.end())
-                            if best is None or best[1] != want or (best[2], best[3]) != (0, len(form)):
+                            if best is None or best[1] != want or (best[2], best[3]) != (len(ind), len(ind) + len(form)):
                                 mech = None
-                                if cls == 'macro' and best is not None and best[1] == 'variable.function.instruction' and best[2] == 0 \
-                                        and line[:best[3]].lower() in {x.lower() for x in m['mns']} and line[best[3]:best[3] + 1] == '.':
+                                if cls == 'macro' and best is not None and best[1] == 'variable.function.instruction' and best[2] == len(ind) \
+                                        and line[len(ind):best[3]].lower() in {x.lower() for x in m['mns']} and line[best[3]:best[3] + 1] == '.':
                                     # defect emulation for the listed finding: the instruction rule comes first and its
                                     # alternatives end in \b, which also holds in front of the "." of a longer dotted name
                                     mech = 'dotted-macro-shadowed-by-instruction-prefix'
